@@ -117,7 +117,14 @@ func (r *Reconciler) reconcileTransaction(ctx context.Context, transaction *conf
 			return result, nil
 		}
 	}
-	return controller.Result{}, nil
+	// Nothing to do for this Transaction. The next Transaction in the log may be waiting for it (a change that failed
+	// validation, was canceled or aborted wakes nobody when it is done): pass the wake-up on.
+	return controller.Result{
+		Requeue: controller.NewID(configapi.TransactionID{
+			Target: transaction.ID.Target,
+			Index:  transaction.ID.Index + 1,
+		}),
+	}, nil
 }
 
 func (r *Reconciler) reconcileChange(ctx context.Context, transaction *configapi.Transaction, configuration *configapi.Configuration) (controller.Result, bool, error) {
@@ -420,6 +427,12 @@ func (r *Reconciler) applyChange(ctx context.Context, transaction *configapi.Tra
 		}
 
 		values := addDeleteChildren(transaction.ID.Index, transaction.Values, configuration.Committed.Values)
+		// Stamp the values with the index of this Transaction: the configuration store only rewrites a stored
+		// value whose index differs.
+		for path, value := range values {
+			value.Index = transaction.ID.Index
+			values[path] = value
+		}
 		if ok, err := r.applyValues(ctx, transaction, configuration, values); !ok {
 			return controller.Result{}, false, err
 		} else if err != nil {
@@ -778,6 +791,12 @@ func (r *Reconciler) applyRollback(ctx context.Context, transaction *configapi.T
 		}
 
 		values := addDeleteChildren(transaction.ID.Index, transaction.Status.Rollback.Values, configuration.Committed.Values)
+		// Stamp the restored values with the index of the revision they are restored to: the configuration store
+		// only rewrites a stored value whose index differs.
+		for path, value := range values {
+			value.Index = transaction.Status.Rollback.Index
+			values[path] = value
+		}
 		if ok, err := r.applyValues(ctx, transaction, configuration, values); !ok {
 			return controller.Result{}, false, err
 		} else if err != nil {
